@@ -732,6 +732,17 @@ impl GlobalInferenceCtx<'_> {
         ExprIsConst::Const
     }
 
+    /// `ptr.field` and `ptr[idx]` dereference every pointer level of `ptr`.
+    /// This returns the mutability of the last pointer crossed that way (`^mut ^T` => `false`)
+    fn auto_deref_mutability(mut ty: Intern<Ty>) -> Option<bool> {
+        let mut last = None;
+        while let Some((mutable, sub_ty)) = ty.as_pointer() {
+            last = Some(mutable);
+            ty = sub_ty;
+        }
+        last
+    }
+
     /// `deref` allows certain expressions to be mutable
     /// only if they are being mutated through a deref
     fn get_mutability(&self, expr: Idx<Expr>, assignment: bool, deref: bool) -> ExprMutability {
@@ -746,12 +757,34 @@ impl GlobalInferenceCtx<'_> {
                 // ),
                 _ => ExprMutability::ImmutableRef(self.bodies.range_for_expr(expr)),
             },
-            Expr::Deref { pointer } => self.get_mutability(*pointer, assignment, true),
-            Expr::Index { source: array, .. } => self.get_mutability(
-                *array,
-                assignment,
-                deref || self.tys[self.loc][*array].is_pointer(),
-            ),
+            Expr::Deref { pointer } => {
+                let pointer_ty = self.tys[self.loc][*pointer];
+
+                // however the pointer itself was reached, nothing can be mutated through it if
+                // it is an immutable pointer (`pp : ^mut ^i32; pp^^ = 5;`)
+                match (
+                    self.get_mutability(*pointer, assignment, true),
+                    pointer_ty.as_pointer(),
+                ) {
+                    (ExprMutability::Mutable, Some((false, _))) => {
+                        ExprMutability::ImmutableRef(self.bodies.range_for_expr(*pointer))
+                    }
+                    (mutability, _) => mutability,
+                }
+            }
+            Expr::Index { source: array, .. } => {
+                let array_ty = self.tys[self.loc][*array];
+
+                match (
+                    self.get_mutability(*array, assignment, deref || array_ty.is_pointer()),
+                    Self::auto_deref_mutability(array_ty),
+                ) {
+                    (ExprMutability::Mutable, Some(false)) => {
+                        ExprMutability::ImmutableRef(self.bodies.range_for_expr(*array))
+                    }
+                    (mutability, _) => mutability,
+                }
+            }
             Expr::Block {
                 tail_expr: Some(tail_expr),
                 ..
@@ -854,11 +887,19 @@ impl GlobalInferenceCtx<'_> {
                             ExprMutability::ImmutableRef(field.range)
                         }
                     }
-                    _ => self.get_mutability(
-                        *previous,
-                        assignment,
-                        deref || previous_ty.is_pointer(),
-                    ),
+                    _ => match (
+                        self.get_mutability(
+                            *previous,
+                            assignment,
+                            deref || previous_ty.is_pointer(),
+                        ),
+                        Self::auto_deref_mutability(previous_ty),
+                    ) {
+                        (ExprMutability::Mutable, Some(false)) => {
+                            ExprMutability::ImmutableRef(self.bodies.range_for_expr(*previous))
+                        }
+                        (mutability, _) => mutability,
+                    },
                 }
             }
             // a call result that is dereferenced: only a `^mut` result can be mutated through
